@@ -151,7 +151,13 @@ func emit(ss []Stmt) []byte {
 		case "block":
 			out = append(out, wb.Cat(wb.Op(wasm.OpcodeBlock, 0x40), emit(s.Body), wb.Op(wasm.OpcodeEnd))...)
 		case "if":
-			out = append(out, wb.Cat(wb.LocalGet(lC), wb.Op(wasm.OpcodeIf, 0x40), emit(s.Body), wb.Op(wasm.OpcodeElse), emit(s.Else), wb.Op(wasm.OpcodeEnd))...)
+			if len(s.Else) == 0 {
+				// an `if` WITHOUT else: the compiler front end creates an empty forwarding block for the
+				// missing arm, which is a predecessor of the merge block that never ran the then-arm's checks
+				out = append(out, wb.Cat(wb.LocalGet(lC), wb.Op(wasm.OpcodeIf, 0x40), emit(s.Body), wb.Op(wasm.OpcodeEnd))...)
+			} else {
+				out = append(out, wb.Cat(wb.LocalGet(lC), wb.Op(wasm.OpcodeIf, 0x40), emit(s.Body), wb.Op(wasm.OpcodeElse), emit(s.Else), wb.Op(wasm.OpcodeEnd))...)
+			}
 		case "loop":
 			out = append(out, wb.Cat(wb.LocalGet(lC), wb.LocalSet(lI), wb.Op(wasm.OpcodeLoop, 0x40), emit(s.Body),
 				wb.LocalGet(lI), i32c(1), wb.Op(wasm.OpcodeI32Sub), wb.LocalTee(lI), wb.Op(wasm.OpcodeBrIf), wb.U32(0), wb.Op(wasm.OpcodeEnd))...)
